@@ -52,7 +52,20 @@ func (vc *VC) execCall(fr *frame, n *Node, x *ssa.Call) {
 		ms := newModSet()
 		vc.prog.callMods(c, ms, map[*ssa.Function]bool{}, vc.pos(x.Pos()))
 		vc.havocMods(n, ms)
-		vc.bindResult(n, x, sig, vc.freshResults(n, x.Name(), sig))
+		rs := vc.freshResults(n, x.Name(), sig)
+		// convention assumed of plug-in interfaces: a method returning (X, error) with X an interface or
+		// pointer returns a non-nil X when the error is nil
+		if len(rs) == 2 && isErrorType(rs[1].Typ) {
+			switch rs[0].Typ.Underlying().(type) {
+			case *types.Interface:
+				vc.assume(fmt.Sprintf("(=> (= %s nil.iface) (not (= %s nil.iface)))", rs[1].T, rs[0].T))
+				vc.enc.trusted["interface methods returning (value, error) return a non-nil value when the error is nil (convention assumed of plug-ins)"] = true
+			case *types.Pointer:
+				vc.assume(fmt.Sprintf("(=> (= %s nil.iface) (not (= (p.obj %s) 0)))", rs[1].T, rs[0].T))
+				vc.enc.trusted["interface methods returning (value, error) return a non-nil value when the error is nil (convention assumed of plug-ins)"] = true
+			}
+		}
+		vc.bindResult(n, x, sig, rs)
 		return
 	}
 	callee := c.StaticCallee()
@@ -62,6 +75,13 @@ func (vc *VC) execCall(fr *frame, n *Node, x *ssa.Call) {
 		if cv, ok := vc.clos[fv.T]; ok {
 			clo = cv
 			callee = cv.fn
+		}
+	}
+	if callee == nil {
+		// package-level function variable assigned once, in the initialiser (test seam)
+		if fn := vc.prog.globalFuncInit(c.Value); fn != nil {
+			vc.prog.assumed["package-level function variables assigned only in the package initialiser keep that value"] = true
+			callee = fn
 		}
 	}
 	if callee == nil {
